@@ -6,7 +6,6 @@ import numpy as np
 import pandas as pd
 import scipy.sparse as sp
 import warnings
-import copy
 import time
 import scipy.optimize as opt
 from numbers import Real
@@ -3455,10 +3454,9 @@ class RoConstr:
                 raise ValueError('Models mismatch.')
             sup_model.st(item)
 
-        constr = copy.copy(self)
-        constr.support = sup_model.do_math(primal=False, obj=False)
+        self.support = sup_model.do_math(primal=False, obj=False)
 
-        return constr
+        return self
 
     def le_to_rc(self, support=None):
 
@@ -5014,10 +5012,9 @@ class DecLinConstr(LinConstr):
 
     def forall(self, ambset):
 
-        constr = copy.copy(self)
-        constr.ambset = ambset
+        self.ambset = ambset
 
-        return constr
+        return self
 
 
 class DecBounds(Bounds):
@@ -5100,16 +5097,14 @@ class DecRoConstr(RoConstr):
             for constr in suppset:
                 if constr.model is not self.rand_model:
                     raise ValueError('Models mismatch.')
-            constr = copy.copy(self)
-            constr.ambset = suppset
-            return constr
+            self.ambset = suppset
+            return self
         else:
             if self.dec_model.top is not ambset.model:
                 raise ValueError('Models mismatch.')
 
-            constr = copy.copy(self)
-            constr.ambset = ambset
-            return constr
+            self.ambset = ambset
+            return self
 
 
 class DecLMIConstr(LMIConstr):
